@@ -112,6 +112,19 @@ Theorem C20_accepted_is_pooled :
 Proof. exact accepted_is_pooled. Qed.
 Print Assumptions C20_accepted_is_pooled.
 
+(* Clause 8: whatever the history, an account is in the pool's local set only
+   if the configuration named it or one of its submissions flagged local was
+   accepted (error nil) by some earlier op - a rejected local submission
+   (replacement underpriced, nonce too low, insufficient funds, gas limit,
+   oversized, ...) never makes its sender exempt from the limits. *)
+Theorem C20_locals_only_from_accepted_local_submissions :
+  forall c genesis ops a,
+    In a (locals (run (new_pool c genesis) ops)) ->
+    In a (cfg_locals c) \/
+    exists pre o post, ops = pre ++ o :: post /\ In a (local_accepts (run (new_pool c genesis) pre) o).
+Proof. exact locals_all_histories. Qed.
+Print Assumptions C20_locals_only_from_accepted_local_submissions.
+
 (* Data-race clause (partial): on the method table regenerated from
    core/tx_pool.go, every entry point of TxPool (exported method or goroutine
    body) touches the shared fields only inside
